@@ -95,7 +95,7 @@ def main(tier, seed):
             e.obligation("log_probability(a)=log-softmax(logits)[a]",
                          lambda i, o: S.close(S.SA(o[1]).reshape(nb, n), canon(i)[0] - S.bcast(canon(i)[1], (nb, n)) - S.bcast(S.log(canon(i)[3]), (nb, n))))
             e.obligation("entropy=-sum_a exp(logp_a)*logp_a",
-                         lambda i, o: S.close(S.SA(o[2]).reshape(nb), -((S.exp(S.SA(o[1]).reshape(nb, n)) * S.SA(o[1]).reshape(nb, n)).sum(axis=1))), split=True)
+                         lambda i, o: S.close(S.SA(o[2]).reshape(nb), -((S.exp(S.SA(o[1]).reshape(nb, n)) * S.SA(o[1]).reshape(nb, n)).sum(axis=1))), split=True, extreme=True)
 
             def sample_is_gumbel_argmax(i, o, nz):
                 lg = canon(i)[0]
